@@ -9,3 +9,5 @@ import AGV.Props.C15
 #print axioms AGV.Props.C15.c15_source_control_arm
 #print axioms AGV.Props.C15.c15_string_violated_by_decimal_escape
 #print axioms AGV.Props.C15.c15_value_violated_by_decimal_escape
+#print axioms AGV.Props.C15.c15_string_lexer_refines_spec
+#print axioms AGV.Props.C15.c15_string_token_refines_spec
